@@ -16,20 +16,21 @@ type syncsagaRG = syncsaga.ReadyGroup
 
 // BCall is one recorded game-backend call.
 type BCall struct {
-	N      int    `json:"n"`
-	Kind   string `json:"kind"`
-	Arg    int64  `json:"arg,omitempty"`
-	InID   string `json:"in,omitempty"`  // GameID/UpdatedAt of the input state
-	InCP   int    `json:"in_cp"`         // current player of the input state
-	InEv   string `json:"in_ev,omitempty"`
-	OutID  string `json:"out,omitempty"`
-	OutEv  string `json:"out_ev,omitempty"`
-	Err    string `json:"err,omitempty"`
-	Inject bool   `json:"inject,omitempty"`
-	ReplyLost bool `json:"reply_lost,omitempty"`
-	Mono   int64  `json:"mono"`
-	Out    *pokerface.GameState `json:"-"`
-	Opts   *pokerface.GameOptions `json:"-"`
+	N              int                    `json:"n"`
+	Kind           string                 `json:"kind"`
+	Arg            int64                  `json:"arg,omitempty"`
+	InID           string                 `json:"in,omitempty"` // GameID/UpdatedAt of the input state
+	InCP           int                    `json:"in_cp"`        // current player of the input state
+	InEv           string                 `json:"in_ev,omitempty"`
+	OutID          string                 `json:"out,omitempty"`
+	OutEv          string                 `json:"out_ev,omitempty"`
+	Err            string                 `json:"err,omitempty"`
+	Inject         bool                   `json:"inject,omitempty"`
+	ReplyLost      bool                   `json:"reply_lost,omitempty"`
+	StateWithError bool                   `json:"state_with_error,omitempty"`
+	Mono           int64                  `json:"mono"`
+	Out            *pokerface.GameState   `json:"-"`
+	Opts           *pokerface.GameOptions `json:"-"`
 }
 
 func gsID(gs *pokerface.GameState) string {
@@ -52,7 +53,10 @@ type RigBackend struct {
 	Fault func(n int, kind string) bool
 	// ReplyLost (optional): for an injected fault, whether the inner backend is called first and its reply discarded.
 	ReplyLost func(n int, kind string) bool
-	n     int
+	// StateWithError (optional): for an injected fault, whether the backend answers with the computed state AND the
+	// error (a remote engine that reports a failure together with a body); the caller must go by the error.
+	StateWithError func(n int, kind string) bool
+	n              int
 }
 
 func NewRigBackend() *RigBackend { return &RigBackend{inner: pt.NewNativeGameBackend()} }
@@ -76,6 +80,11 @@ func (b *RigBackend) rec(kind string, arg int64, in *pokerface.GameState, fn fun
 	if f != nil && f(n, kind) {
 		c.Err = ErrInjected.Error()
 		c.Inject = true
+		if b.StateWithError != nil && b.StateWithError(n, kind) {
+			c.StateWithError = true
+			out, _ := fn()
+			return out, ErrInjected
+		}
 		if b.ReplyLost != nil && b.ReplyLost(n, kind) {
 			// the backend did the work and the reply got lost (a remote backend timing out): the caller sees an error
 			c.ReplyLost = true
